@@ -71,3 +71,14 @@ SORT_DOCS = [
         '<ECUC-NUMERICAL-PARAM-VALUE><DEFINITION-REF DEST="ECUC-INTEGER-PARAM-DEF">/D/a</DEFINITION-REF><VALUE>1</VALUE></ECUC-NUMERICAL-PARAM-VALUE>'
         '</PARAMETER-VALUES></ECUC-CONTAINER-VALUE><ECUC-CONTAINER-VALUE><SHORT-NAME>C1</SHORT-NAME></ECUC-CONTAINER-VALUE></CONTAINERS></ECUC-MODULE-CONFIGURATION-VALUES>'),
 ]
+
+
+# documents with comments in various places (C01: comments are kept, attached to the following element)
+COMMENT_DOCS = [
+    doc('<!--c0--><SYSTEM><!--c1--><SHORT-NAME>Sys</SHORT-NAME><!--c2--><CATEGORY>x</CATEGORY></SYSTEM>'),
+    (HDR % '00050') + '<AR-PACKAGES><AR-PACKAGE><SHORT-NAME>Pkg</SHORT-NAME><!--empty follows--><ELEMENTS/></AR-PACKAGE></AR-PACKAGES></AUTOSAR>',
+    doc(SYS % '<DESC><!--c--><L-2 L="EN"/></DESC>'),
+    doc(SYS % '<DESC><L-2 L="EN">a <!--inside mixed--><BR/> b</L-2></DESC>'),
+    doc(SYS % '<ADMIN-DATA><!--x--><SDGS><!--y--><SDG GID="g"><!--z--><SD GID="v">1</SD></SDG></SDGS></ADMIN-DATA>'),
+    '<?xml version="1.0" encoding="utf-8" standalone="no"?>\n<!--before root-->\n' + doc('').split('\n', 1)[1],
+]
